@@ -12,7 +12,8 @@ RULE = ("case = generated hierarchy (nested lists of components, lists of ports/
         "(order.stmt, order.flip, dup.connect, order.hash, order.lazy = the seeded order in which slice/field signals "
         "are first touched); invariant after every elaboration: unique repr, eval(repr(o)) is o, parent/host/level/"
         "top-level-signal metadata agree with the name, identical name sets for all orderings and for a second "
-        "elaboration of freshly constructed objects; non-trivial = >=30 named objects incl. >=1 lazily created "
+        "elaboration of freshly constructed objects (30%: hierarchy-only family with interfaces, n-d lists, method "
+        "ports, stdlib queue pipelines and tiles whose connects make the stdlib insert numbered adapter components); non-trivial = >=30 named objects incl. >=1 lazily created "
         "slice/field signal and >=1 component list; distinct = case digest. The program dimension is plain "
         "generation; what the simulator adds is the order dimension (DESIGN.md C14).")
 TIERS = {"quick": {"runs": 960, "budget_s": 100, "chunk": 4},
